@@ -13,7 +13,7 @@ PROP = {'title': 'Textual and binary encodings round-trip losslessly',
                'strings up to length 6 (quick 4) over one representative per UTF-8 length class plus structured long strings '
                '(a^i X^k a^j, X^n, cyclic mixes) instead of random strings up to 40; sanitizer aborts are attributed to the announced case',
  'binaries': [{'name': 'C15',
-               'sources': ['harness/C15.cpp', 'harness/C15_text.cpp', 'harness/C15_conv.cpp', 'harness/C15_locale.cpp'],
+               'sources': ['harness/C15.cpp', 'harness/C15_text.cpp', 'harness/C15_conv.cpp', 'harness/C15_locale.cpp', 'harness/C15_state.cpp', 'harness/C15_env.cpp'],
                'libs': ['core'],
                'flavour': 'asan'}],
  'deadline': {'quick': 300, 'thorough': 1500},
@@ -36,7 +36,28 @@ PROP = {'title': 'Textual and binary encodings round-trip losslessly',
          'numpunct<char/wchar_t> facets (grouping 3 with , or . separator, decimal comma, 3;2 and 1 groupings) in 10 (global locale, given '
          'locale) combinations: the text equals a hand-grouped decimal reference, reads back with the same locale, and a text containing '
          'a separator does not yield the value when read with the classic locale; the plain forms round-trip under each of those global '
-         'locales; vector/dim<int,N<=3 (4 thorough)> over {-2..2}^N and all pairs over the '
+         'locales; history: before each checked output_to_*string/extract_from_string call (8 narrow/wide/_locale variants) an earlier '
+         'conversion of a user-defined type is made on the same thread whose inserter leaves one of 21 sticky states (hex, oct, showbase, '
+         'showpos, uppercase, boolalpha, fill, precision, fixed, scientific, failbit, badbit, imbued locale, pending width, left, internal, '
+         'unitbuf, showpoint, ...) resp. whose extractor leaves one of 8 states, for 26 integers (incl. >=8, >=10, >999, negative) per '
+         'integer type, doubles, bool, enum, string, char: the text equals what a fresh std::ostringstream of the harness writes and reads '
+         'back to the value; stream state: every vector/dim<int|unsigned,N<=3> over {0,7,8,9,10,15,16,255,4096,-1,-10}, 2x2 matrices '
+         '(output only), strong_typedef<int|unsigned> and an enum x basefield{dec,hex,oct} x showbase x uppercase x showpos x (width 0 | '
+         'width 8 x fill{blank,*} x adjust{left,right,internal}) on char and wchar_t streams: for width 0 the text equals the composition '
+         'of what the elements\' own inserters write in that state, and reading from the same stream in the same state gives the value '
+         'back whenever every element on its own round-trips through a plain iostream in that state; environment answers: io::write for '
+         '16 arithmetic types x 2-5 values x both byte orders, io::write_chars for 0..9 chars and operator<< of vector, dim, enum and '
+         'strong_typedef (char and wchar_t) against scripted stream buffers -- a sink accepting exactly k characters for every k in 0..n+1 '
+         '(via xsputn/overflow and via a k-character put area), a sink that flushes a put area of 1..n characters (takes everything), a sink '
+         'throwing at character k for every k<n with exceptions() none/badbit/all, a stream already in fail/bad/eof state: good() after the '
+         'call implies the sink holds exactly the reference encoding, the sink always holds a prefix of it, complete sinks receive '
+         'everything; io::read (6 types) and io::read_chars against scripted sources (only k<n bytes, refills of 1/3/n+2 bytes, every refill '
+         'size for complete data, throwing at byte k with the three masks, failed stream): a value is returned only if it is the reference '
+         'value and exactly n bytes were consumed, never from an incomplete source; hostile wide tokens: for every enumerator name / '
+         'decimal token x every position x {+0x100,+0x400,+0x1F400,+0x10000,+0xFF00, every U+0100..U+017F, full-width and Arabic-Indic '
+         'digit} and every insertion of U+00E9/U+20AC/U+1F600/U+0100, in the C and C.UTF-8 locales: wide enum input sets failbit and '
+         'leaves the target, extract_from_string(_locale) gives nothing, narrow_locale/from_std_wstring_locale/io::narrow_string_locale do '
+         'not give the ASCII name, extract_from_string<std::wstring> gives the token unchanged; vector/dim<int,N<=3 (4 thorough)> over {-2..2}^N and all pairs over the '
          'integer lattice: output text = "(a,b,...)", output->input identity, every proper prefix and every wrong delimiter rejected. '
          'Conversions: every Unicode scalar value U+0001..U+10FFFF except surrogates singly (quick: every 17th plus the boundaries of the '
          'UTF-8 length classes), all strings up to length 6 (quick 4) over {a, U+00E9, U+20AC, U+1F600}, structured long strings; each '
@@ -50,6 +71,13 @@ PROP = {'title': 'Textual and binary encodings round-trip losslessly',
                  'the text written with a locale is compared with a grouped decimal reference for integers only; floats are checked for the round trip and for not being readable as the same value by the classic locale',
                  'only strings of valid characters are converted: U+0000, surrogates, values above U+10FFFF and malformed UTF-8 are outside the statement',
                  'negative decimal texts read into unsigned types are skipped (iostreams define them to wrap)',
+                 'field width: the library applies a non-zero width to the first inserted character only ((a,b) pads the parenthesis, an enum name is '
+                 'padded after its first character when left-adjusted: "r       ed"); width is not part of the statement, so for width 8 only '
+                 'the round trip with the blank fill is asserted (not for left-adjusted enum names, which are counted as information)',
+                 'negative elements in hex/oct and other values that plain iostreams do not round-trip in a given state are excluded from the stream-state round trip (not from the text comparison)',
+                 'a stream that was already failed before the call stays failed; whether bytes reach its buffer is not asserted',
+                 'for long double only the number of bytes accepted by a sink is compared (padding bytes are indeterminate)',
+                 'enum input: the target is left unchanged on failure (what the code and its documentation "in case this fails, the failbit is set" imply)',
                  'floating point values are covered for the binary encodings only; their default-precision text form is not lossless by design',
                  'the byte layout of long double (padding bytes) is not asserted, only the value round trip; long double values are restricted to '
                  'those whose six low-order mantissa bytes are non-zero, for which the outcome does not depend on indeterminate padding bytes',
